@@ -63,6 +63,7 @@ type taintEngine struct {
 	inProgress map[string]bool
 	depth      int
 	Sources    map[string]bool
+	raw        map[ssa.Value]bool // slices being evaluated for their contents before an in-place map loop
 }
 
 func isStringy(t types.Type) bool {
@@ -99,6 +100,22 @@ func (e *taintEngine) eval(v ssa.Value, fn *ssa.Function, ctx *taintCtx, seen ma
 	}
 	seen[v] = true
 	defer delete(seen, v)
+	if vals, ok := mappedInPlace(v); ok && !e.raw[v] {
+		// for i := range v { v[i] = f(v[i]) } before every other use: the elements are f's results.
+		// Inside f's argument, v stands for its original contents.
+		if e.raw == nil {
+			e.raw = map[ssa.Value]bool{}
+		}
+		e.raw[v] = true
+		delete(seen, v)
+		var t taintSet
+		for _, val := range vals {
+			t = t.add(e.eval(val, fn, ctx, seen))
+		}
+		delete(e.raw, v)
+		seen[v] = true
+		return t
+	}
 	switch x := v.(type) {
 	case *ssa.Const:
 		return nil
@@ -483,4 +500,109 @@ func emptyOnEdge(from, to *ssa.BasicBlock, al *ssa.Alloc, field int) bool {
 		return from.Succs[1] == to && from.Succs[0] != to
 	}
 	return from.Succs[0] == to && from.Succs[1] != to
+}
+
+// mappedInPlace: v is a slice every element of which is overwritten by one forward loop
+// over v itself (`for i := range v { v[i] = … }`), and every use of v other than its
+// length and the element accesses of that loop comes after the loop.  Returns the
+// values stored.
+func mappedInPlace(v ssa.Value) ([]ssa.Value, bool) {
+	if _, isSlice := v.Type().Underlying().(*types.Slice); !isSlice || v.Referrers() == nil {
+		return nil, false
+	}
+	if _, isConst := v.(*ssa.Const); isConst {
+		return nil, false
+	}
+	var stores []*ssa.Store
+	var hdr *ssa.BasicBlock
+	var others []ssa.Instruction
+	for _, r := range *v.Referrers() {
+		switch x := r.(type) {
+		case *ssa.DebugRef:
+			continue
+		case *ssa.Call:
+			if lenSlice(x) == v {
+				continue
+			}
+		case *ssa.IndexAddr:
+			bound, ok := forwardIndex(x.Index)
+			if ok && x.X == v && lenSlice(bound) == v && x.Referrers() != nil {
+				elemOnly := true
+				for _, r2 := range *x.Referrers() {
+					switch y := r2.(type) {
+					case *ssa.Store:
+						if y.Addr != ssa.Value(x) {
+							elemOnly = false
+						} else {
+							stores = append(stores, y)
+						}
+					case *ssa.UnOp, *ssa.DebugRef:
+					default:
+						elemOnly = false
+					}
+				}
+				if elemOnly {
+					h := loopHeaderOfIndex(x.Index)
+					if h != nil && (hdr == nil || hdr == h) {
+						hdr = h
+						continue
+					}
+				}
+			}
+		}
+		others = append(others, r)
+	}
+	if len(stores) == 0 || hdr == nil {
+		return nil, false
+	}
+	loop := naturalLoop(hdr)
+	var vals []ssa.Value
+	for _, st := range stores {
+		if !loop[st.Block()] {
+			return nil, false
+		}
+		vals = append(vals, st.Val)
+	}
+	// some store runs on every iteration
+	every := false
+	for _, st := range stores {
+		all := true
+		for _, p := range hdr.Preds {
+			if loop[p] && !st.Block().Dominates(p) {
+				all = false
+			}
+		}
+		if all {
+			every = true
+		}
+	}
+	if !every || len(stores) != 1 {
+		return nil, false
+	}
+	for _, o := range others {
+		if o.Block() == nil || loop[o.Block()] || !hdr.Dominates(o.Block()) {
+			return nil, false
+		}
+	}
+	return vals, true
+}
+
+// loopHeaderOfIndex: the block whose `idx < bound` test controls the forward loop of idx.
+func loopHeaderOfIndex(idx ssa.Value) *ssa.BasicBlock {
+	var counter ssa.Value = idx
+	if !rangeIndex(idx) {
+		if _, ok := idx.(*ssa.Phi); !ok {
+			return nil
+		}
+	}
+	for _, r := range *counter.Referrers() {
+		if cmp, ok := r.(*ssa.BinOp); ok && cmp.Op == token.LSS && cmp.X == counter {
+			for _, rr := range *cmp.Referrers() {
+				if _, isIf := rr.(*ssa.If); isIf {
+					return rr.Block()
+				}
+			}
+		}
+	}
+	return nil
 }
